@@ -161,10 +161,10 @@ fn c45_market_token_amount_for_glv_value_lean_u8() {
     kani::cover!(r.is_none(), "rejected");
 }
 
-//@ prop=C45 tier=thorough kind=hold
+//@ prop=C45 tier=experimental kind=hold
 //@ enc=glv::get_glv_value_for_market, LiquidityMarketExt::pool_value (all terms), utils::market_token_amount_to_usd
-//@ bound=T=u8 DECIMALS=1: every market field symbolic (open interest, borrowing state, pnl factors, impact pool), balance, prices, maximize; borrowing clock reads 0 s; borrowing exponents in {0, 1.0}
-//@ timeout=3600 mem=30
+//@ bound=T=u8 DECIMALS=1: every market field symbolic (open interest, borrowing state, pnl factors, impact pool), balance, prices, maximize; borrowing clock reads 0 s; borrowing exponents in {0, 1.0} -- its only run hit the 3600 s timeout while the shared machine was out of memory (two all-symbolic pool_value executions, ~12 GB); not seen to pass, hence experimental
+//@ timeout=5400 mem=30
 #[kani::proof]
 #[kani::unwind(1)]
 fn c45_glv_value_for_market_u8() {
@@ -174,10 +174,10 @@ fn c45_glv_value_for_market_u8() {
     kani::cover!(r.is_none(), "rejected");
 }
 
-//@ prop=C45 tier=thorough kind=hold
+//@ prop=C45 tier=experimental kind=hold
 //@ enc=glv::get_market_token_amount_for_glv_value, LiquidityMarketExt::pool_value (all terms), utils::usd_to_market_token_amount
-//@ bound=T=u8 DECIMALS=1: every market field symbolic, glv value, divisor, prices, maximize; borrowing clock reads 0 s; borrowing exponents in {0, 1.0}
-//@ timeout=3600 mem=30
+//@ bound=T=u8 DECIMALS=1: every market field symbolic, glv value, divisor, prices, maximize; borrowing clock reads 0 s; borrowing exponents in {0, 1.0} -- stopped at 46 min / 11 GB to free the shared machine; not seen to pass, hence experimental
+//@ timeout=5400 mem=30
 #[kani::proof]
 #[kani::unwind(1)]
 fn c45_market_token_amount_for_glv_value_u8() {
